@@ -502,9 +502,14 @@ def families(tier, seed=0, include_fixed=False):
               D2x1: depth 2 with a single-kid root over 2 texts, exactly 1 deviation, 1 alternative
               CH3 / CH4: all 9^3 (3 leaves) / 9^4 (2 leaves) single-kid chains, default options
               ROT: rotating slice (seed mod 6): D1 with 0..2 deviations over one further leaf string
-    thorough  D1 with 0..3 deviations all alternatives (<=3 kids for 0..1 deviations); D2 <=2 kids 5 texts defaults
-              + 1 deviation over 3 texts; D3 (depth 3) <=2 kids over 1 text with single-kid roots; CH3 11 leaves;
-              CH4 5 leaves + 1 deviation over 1 leaf
+    thorough  D1: depth<=1, <=3 kids, all 11 texts + rule/pbar/bar, default options
+              D1x1 / D1x2 / D1x3: depth<=1, <=2 kids, exactly 1 / 2 / 3 deviations over 11 / 5 / 2 texts
+                    (+ rule/pbar/bar for 1 and 2) with all / 2 / 1 alternatives per option
+              D2: depth 2, <=2 kids, 4 texts + rule/pbar/bar under the root, 3 texts below, default options
+              D2x1: depth 2, <=2 kids, 2 texts under the root, 1 text below, exactly 1 deviation
+              D2x2: depth 2 single-kid containers over 2 texts, exactly 2 deviations
+              D3: depth 3, <=2 kids, single-kid root, 1 text, default options
+              CH3: 9^3 chains x 11 texts; CH4: 9^4 chains x 5 texts; CH4x1: 9^4 chains x 1 text, exactly 1 deviation
     include_fixed additionally offers FIXED_OPTIONS in every family with deviations and adds the family ZT
     (zero-column / zero-row tables, alone and inside each single-kid container, 0..1 deviations)."""
     fx = bool(include_fixed)
@@ -528,8 +533,8 @@ def families(tier, seed=0, include_fixed=False):
         F.append(_fam("D1x3", base="skel", depth=1, kids=2, texts=2, others=False, dev=[3], alts=1, fixed=fx))
         F.append(_fam("D2", base="skel", depth=2, kids=2, texts=4, others=True, inner_texts=3, inner_others=False,
                       exact=True, dev=[0], alts=1, fixed=fx))
-        F.append(_fam("D2x1", base="skel", depth=2, kids=2, texts=2, others=False, exact=True, dev=[1], alts=1,
-                      fixed=fx))
+        F.append(_fam("D2x1", base="skel", depth=2, kids=2, texts=2, others=False, inner_texts=1, inner_others=False,
+                      exact=True, dev=[1], alts=1, fixed=fx))
         F.append(_fam("D2x2", base="skel", depth=2, kids=1, texts=2, others=False, exact=True, dev=[2], alts=1,
                       fixed=fx))
         F.append(_fam("D3", base="skel", depth=3, kids=2, texts=1, others=False, exact=True, dev=[0], alts=1,
